@@ -159,6 +159,37 @@ def r_conv(ctx):
         f = ctx.p.func(OP + name)
         loops = [nd for nd in f.nodes if nd.kind == 'for']
         n = 0
+        # the empty sequence has value 0: no element of the sequence is read by position outside a length / emptiness guard
+        bad = []
+        for nd_, x in ctx.all_subterms(f):
+            if x[0] == 'sub' and x[1] == ('v', seqparam, 'P') and x[2][0] == 'c' and isinstance(x[2][1], int):
+                guarded = any(any(y == ('v', seqparam, 'P') for y in walk_term(a)) for a, p_ in ctx.conds(f, nd_))
+                if not guarded and not nd_.loops:
+                    bad.append((nd_.lineno, show(x)))
+        run.check(not bad, 'R-CONV', f, 'empty-sequence-is-zero', bad[0][0] if bad else f.node.lineno,
+                  'no positional read of the sequence outside a loop / guard',
+                  '%s reads %s unconditionally: the empty sequence (value 0) raises IndexError' % (name, bad[0][1] if bad else ''),
+                  inputs='the empty sequence', nontrivial=False)
+        # digits taken from a numpy array are fixed-width integers: acc * R + d silently becomes int64 and wraps
+        for nd in loops:
+            if _arm_of(ctx, f, nd, 'flag') == 'string':
+                continue
+            it = f.term(nd.stmt.iter, nd)
+            src = it[2][0] if is_call(it, 'builtins.enumerate') and it[2] else it
+            if is_call(src, 'numpy.array', 'numpy.asarray', 'numpy.fromiter', 'numpy.frombuffer') or \
+                    (src[0] == 'call' and src[1][0] == 'attr' and src[1][2] == 'astype'):
+                conv = False
+                for p_, k_ in ctx.body_paths(f, nd.id):
+                    for e in walk_path(f, p_)[0]:
+                        if e.kind in ('def', 'aug') and e.term[0] == 'bin' and e.term[1] == '+' and \
+                                any(is_call(y, 'builtins.int') and y[2] and y[2][0][0] == 'iter' for y in (e.term[2], e.term[3])):
+                            conv = True
+                if not conv:
+                    run.refute('R-CONV', f, 'integer:exact-digits', nd.lineno,
+                               '%s (integer path) accumulates digits iterated from %s: the elements are numpy int64, the accumulator '
+                               'becomes int64 after the first step and wraps at 2^63, so the integer path no longer equals the '
+                               'string path' % (name, show(src)[:50]),
+                               inputs='sequences whose value reaches 2^63 (32 nucleotides / 64 bits and more)')
         for nd in loops:
             body = {x.id for x in f.nodes if nd.id in x.loops}
             it = f.term(nd.stmt.iter, nd)
@@ -630,6 +661,20 @@ def r_pair(ctx):
                     okk = True
     # witnesses: no deletion of a key at all (the clean-up was dropped); emptiness decided by any(...), which is also false
     # for a list that still holds vertex 0
+    # the whole entry may only go after the arc itself was looked up / removed in it: a key deletion that is not dominated
+    # by the removal of the arc drops the entry without checking that the reported arc is the one listed
+    dom = f.dominators()
+    arc_nodes = {nd_.id for nd_, _t in arc_del}
+    if key_del and arc_nodes:
+        loose = [nd_ for nd_, t_ in key_del if strip_int(t_[2]) == strip_int(u) and not (arc_nodes & dom[nd_.id])]
+        if loose:
+            run.refute('R-PAIR', f, 'entry-deleted-only-after-arc-removed', loose[0].lineno,
+                       'latter_map[u] is deleted on a path on which the arc (u, successor) was never removed from (or looked up in) '
+                       'its list: when the list holds another vertex, a real arc disappears from the latter map while the accessor '
+                       'keeps it, and a removal of an arc that is not listed no longer raises',
+                       inputs='calls in which the reported arc is not an arc of the map (all scores 0), a vertex with one successor')
+        else:
+            run.ok('R-PAIR', f, 'entry-deleted-only-after-arc-removed', key_del[0][0].lineno, 'the key deletion follows the arc removal')
     wrong_key = key_del and not any(strip_int(t[2]) == strip_int(u) for nd, t in key_del)
     if wrong_key:
         run.refute('R-PAIR', f, 'emptied-key-deleted', key_del[0][0].lineno,
